@@ -127,3 +127,73 @@ func VfC10_NewFloat() {
 	}
 	vfAssert("C10.newfloat.bits-kept", hBitsOf(c) == bits)
 }
+
+// hC10Table: concrete literals of all kinds (decimal, scientific, and the
+// 0xH/0xK/0xL/0xM forms incl. signed NaNs, infinities, subnormals).  These run
+// through big.Float and mewmew/float, which cannot be encoded; the executor
+// calls those libraries natively on the concrete values (floatbridge.go) and
+// interprets everything of llir/llvm around them.  Supplementary to the
+// solver-decided obligations above: a finite table, not a for-all claim.
+var hC10Table = []struct {
+	kind types.FloatKind
+	lit  string
+	hex  bool // the literal is already in the printer's canonical hex form
+}{
+	{types.FloatKindDouble, "0.0", false}, {types.FloatKindDouble, "-0.0", false}, {types.FloatKindDouble, "1.0", false},
+	{types.FloatKindDouble, "1000000.0", false}, {types.FloatKindDouble, "1.0e22", false}, {types.FloatKindDouble, "5.0e7", false},
+	{types.FloatKindDouble, "0.1", false}, {types.FloatKindDouble, "-2.5e-3", false}, {types.FloatKindDouble, "1.5e300", false},
+	{types.FloatKindFloat, "1.0", false}, {types.FloatKindFloat, "0.5", false}, {types.FloatKindFloat, "1000000.0", false},
+	{types.FloatKindFloat, "3.0e10", false}, {types.FloatKindFloat, "-8.0e6", false},
+	{types.FloatKindHalf, "1.0", false}, {types.FloatKindHalf, "0xH3C00", false}, {types.FloatKindHalf, "0xH0001", true},
+	{types.FloatKindHalf, "0xH7E00", true}, {types.FloatKindHalf, "0xHFE00", true}, {types.FloatKindHalf, "0xHFC00", true}, {types.FloatKindHalf, "0xH7C00", true},
+	{types.FloatKindX86_FP80, "0xK3FFF8000000000000000", true}, {types.FloatKindX86_FP80, "0xKBFFF8000000000000000", true},
+	{types.FloatKindX86_FP80, "0xK7FFF8000000000000000", true}, {types.FloatKindX86_FP80, "0xKFFFFBFFFFFFFFFFFFFFF", true}, {types.FloatKindX86_FP80, "0xK7FFFBFFFFFFFFFFFFFFF", true},
+	{types.FloatKindFP128, "0xL00000000000000003FFF000000000000", true}, {types.FloatKindFP128, "0xL0000000000000000BFFF000000000000", true},
+	{types.FloatKindFP128, "0xL00000000000000007FFF800000000000", true}, {types.FloatKindFP128, "0xL0000000000000000FFFF800000000000", true},
+	{types.FloatKindPPC_FP128, "0xM3FF00000000000000000000000000000", true}, {types.FloatKindPPC_FP128, "0xMBFF00000000000000000000000000000", true},
+}
+
+// VfC10_Table
+//
+//vf:unwind 400
+//vf:shards 8
+func VfC10_Table() {
+	k := vfChoice("row", len(hC10Table))
+	row := hC10Table[k]
+	typ := &types.FloatType{Kind: row.kind}
+	c, err := NewFloatFromString(typ, row.lit)
+	vfReach("C10.table")
+	vfAssert("C10.table.accepted", err == nil)
+	if err != nil {
+		return
+	}
+	out := c.Ident()
+	vfObserveStr("out", out)
+	if row.hex {
+		vfAssert("C10.table.canonical-hex-kept", out == row.lit)
+	}
+	back, err2 := NewFloatFromString(typ, out)
+	vfAssert("C10.table.printed-is-accepted", err2 == nil)
+	if err2 != nil {
+		return
+	}
+	vfAssert("C10.table.print-is-fixpoint", back.Ident() == out)
+	vfAssert("C10.table.nan-flag-kept", back.NaN == c.NaN)
+	vfAssert("C10.table.sign-kept", back.X.Signbit() == c.X.Signbit())
+	// a decimal literal must keep its own lexical class (a float literal has a '.')
+	dec := true
+	if len(out) > 1 {
+		if out[:2] == "0x" {
+			dec = false
+		}
+	}
+	if dec {
+		hasDot := false
+		for i := 0; i < len(out); i++ {
+			if out[i] == '.' {
+				hasDot = true
+			}
+		}
+		vfAssert("C10.table.decimal-has-fraction-point", hasDot)
+	}
+}
